@@ -67,6 +67,7 @@ type c15Case struct {
 	Resume   bool      `json:"resume"`
 	Delta    bool      `json:"delta"` // the endpoint runs with a byte-progress callback (as the CLI does): the per-read progress path
 	DeltaSet bool      `json:"-"`
+	MidFrame bool      `json:"midframe"` // the (only) data stream ends inside a frame's payload (header complete): the reader must fail the transfer without waiting for the control stream. (A stream that ends inside the 20-byte HEADER is taken for an ended stream by the code - modelled so in Endpoint.v - and the transfer fails once the control stream ends.)
 	Items    []c15Item `json:"items"`
 	Header   []byte    `json:"header"`
 	Ctl      []byte    `json:"ctl"`
@@ -1132,7 +1133,7 @@ func runC15(cfg config) *hx.Report {
 			for _, at := range cuts {
 				s := append(append([]c15Rec{}, frames[:cut]...), c15Rec{"Trunc", l[:at]})
 				for _, delta := range []bool{false, true} {
-					add(c15Case{Kind: "recv-data", Tag: "data-script", Resume: resume, Delta: delta, DeltaSet: true, Items: items, Header: c15Header(items), Ctl: c15Cat(prefix), Data: [][]byte{c15Cat(s)}})
+					add(c15Case{Kind: "recv-data", Tag: "data-script", Resume: resume, Delta: delta, DeltaSet: true, MidFrame: at >= 20, Items: items, Header: c15Header(items), Ctl: c15Cat(prefix), Data: [][]byte{c15Cat(s)}})
 				}
 			}
 		}
@@ -1456,6 +1457,9 @@ func runC15(cfg config) *hx.Report {
 				sig = "hang:recv:end-before-completion"
 			}
 			rep.Violate(sig, fmt.Sprintf("%s endpoint did not return within %s after every stream had ended (%s script)", side, w, c.Tag), replay)
+		}
+		if c.MidFrame && r.Out != c15OutPanic && r.Out != c15OutHang && r.Phase != 0 {
+			rep.Violate("hang:recv:data-stream-ended-mid-frame", fmt.Sprintf("a data stream ended inside a frame (byte-progress callback: %v) but the receiver kept waiting until the control stream ended too (returned only in phase %d)", c.Delta, r.Phase), replay)
 		}
 		if c.MustErr != "" && r.Out == c15OutOk {
 			rep.Violate("accepted:"+side+":"+c.MustErr, fmt.Sprintf("%s endpoint returned nil for a script that violates the %s guard", side, c.MustErr), replay)
